@@ -379,6 +379,77 @@ pub fn c14(rep: &mut Report, n: usize, seed: u64) {
             }
         }
     }
+    // the edges of the surrogate blocks: well-formed text over the code points next to them (every string up to
+    // length 3), under patterns that walk LEFTWARDS over the text (lookbehind, loops that give back a character),
+    // string search vs UTF-16 search; and every unit array up to length 3 over the block edges against the
+    // UTF-16 semantics model
+    {
+        let edge_cps: [u32; 9] = [0x41, 0xD7FF, 0xE000, 0xE001, 0xFFFF, 0x10000, 0x103FF, 0x10400, 0x10FFFF];
+        let mut texts: Vec<Vec<u32>> = vec![vec![]];
+        let mut cur: Vec<Vec<u32>> = vec![vec![]];
+        for _ in 0..3 {
+            let mut nxt = vec![];
+            for p in &cur {
+                for c in edge_cps {
+                    let mut q = p.clone();
+                    q.push(c);
+                    nxt.push(q);
+                }
+            }
+            texts.extend(nxt.iter().cloned());
+            cur = nxt;
+        }
+        let edge_pats = ["(?<=(.))$", "^(.*)(.)$", "(?<=\\u{E000})$", "(.+)(.)$", "(?<!\\p{Co})$", "(?<=(..))$", "(.)\\1$", "(?<=[\\u{10000}-\\u{10FFFF}])[^A]", "\\B.$", "(?<=^.*?)(.)"];
+        for pat in edge_pats {
+            for fs in ["su", "isu", "sv"] {
+                let Ok(re) = compile(pat, fs, false) else { continue };
+                for h in texts.iter() {
+                    rep.count("surrogate-edge-text");
+                    c14_compare(rep, &mut rng, &re, pat, fs, h, true, &mut done);
+                }
+            }
+        }
+        let edge_units: [u16; 8] = [0x41, 0xD7FF, 0xD800, 0xDBFF, 0xDC00, 0xDFFF, 0xE000, 0xFFFF];
+        let mut arrays: Vec<Vec<u16>> = vec![vec![]];
+        let mut cur: Vec<Vec<u16>> = vec![vec![]];
+        for _ in 0..3 {
+            let mut nxt = vec![];
+            for p in &cur {
+                for u in edge_units {
+                    let mut q = p.clone();
+                    q.push(u);
+                    nxt.push(q);
+                }
+            }
+            arrays.extend(nxt.iter().cloned());
+            cur = nxt;
+        }
+        for pat in ["(?<=(.))$", "^(.*)(.)$", "(.)(?<=\\1)$", "(?<!.)(.)|(?<=(.)).$"] {
+            for fs in ["su", "s"] {
+                let Ok(re) = compile(pat, fs, false) else { continue };
+                let Ok(ir) = regress::verif::dump_ir_canon(pat.chars().map(|ch| ch as u32), make_flags(fs, false)) else { continue };
+                let ir = ir.replace(' ', "~");
+                for units in arrays.iter() {
+                    for ucs2 in [false, true] {
+                        rep.count("surrogate-edge-units");
+                        done += 1;
+                        regress::verif::fuel::reset(1_000_000);
+                        let r = guarded(std::panic::AssertUnwindSafe(|| if ucs2 { re.find_from_ucs2(units, 0).next() } else { re.find_from_utf16(units, 0).next() }));
+                        let (_, _, ex) = regress::verif::fuel::report();
+                        regress::verif::fuel::reset(u64::MAX);
+                        let reply = match r {
+                            Err(_) => "panic".to_string(),
+                            Ok(_) if ex => "fuel".to_string(),
+                            Ok(None) => "none".to_string(),
+                            Ok(Some(m)) => format!("m {}", fmt_matches(&[m])),
+                        };
+                        let hex = if units.is_empty() { "-".to_string() } else { units.iter().map(|u| format!("{:04x}", u)).collect::<String>() };
+                        rep.tie(format!("{} {} {} {} 0", if ucs2 { "semfind16ucs2" } else { "semfind16" }, fs, ir, hex), reply);
+                    }
+                }
+            }
+        }
+    }
     // case-insensitive back-references over characters whose case partners differ in encoded length or
     // fold differently under the legacy and the Unicode relation, through all three entry points
     let classes: &[&[u32]] = &[
